@@ -29,6 +29,7 @@ mod gen_schema_chain;
 mod c16;
 mod c14;
 mod c15;
+mod c17;
 
 use out::Out;
 
@@ -90,6 +91,7 @@ fn main() {
                 "c16" => c16::run(&args, &mut out),
                 "c14" => c14::run(&args, &mut out),
                 "c15" => c15::run(&args, &mut out),
+                "c17" => c17::run(&args, &mut out),
                 s => { eprintln!("unknown stream {s}"); std::process::exit(2); }
             }
             out.write(&args.out);
